@@ -116,6 +116,8 @@ def main():
         return 0 if ok else 1
     flt = args[0] if args else ''
     files = sorted(glob.glob(os.path.join(HERE, 'selftest', 'mutants', flt + '*.json')) + glob.glob(os.path.join(HERE, 'selftest', 'neutral', flt + '*.json')))
+    if os.environ.get('QXV_MUTATE_ONLY'):      # 'mutants' or 'neutral'
+        files = [f for f in files if os.path.basename(os.path.dirname(f)) == os.environ['QXV_MUTATE_ONLY']]
     bad = 0
     for f in files:
         m = json.load(open(f))
